@@ -204,7 +204,7 @@ def shard(cases, known):
 
 
 def run(ctx):
-    draws = ctx.n(1, 12)
+    draws = ctx.n(3, 16)
     cases = [dict(base=b, fault="none", param=0) for b in BASES]
     for b in BASES:
         for f in FAULTS:
